@@ -305,7 +305,7 @@ pub fn replay(path: &Path) -> i32 {
             return 2;
         }
     };
-    let rf: ReplayFile = match serde_json::from_slice(&bytes) {
+    let rf: ReplayFile = match crate::common::json_from_slice(&bytes) {
         Ok(r) => r,
         Err(e) => {
             eprintln!("replay: cannot parse {:?}: {}", path, e);
@@ -467,7 +467,7 @@ pub fn check(a: &RunArgs) -> i32 {
         if !name.starts_with(&a.prop) || !name.ends_with(".json") {
             continue;
         }
-        let rf: ReplayFile = match std::fs::read(&f).ok().and_then(|b| serde_json::from_slice(&b).ok()) {
+        let rf: ReplayFile = match std::fs::read(&f).ok().and_then(|b| crate::common::json_from_slice(&b).ok()) {
             Some(r) => r,
             None => {
                 eprintln!("harness error: cannot read regression replay {:?}", f);
